@@ -66,6 +66,10 @@ def gen_sources(outdir, Ls):
     for L in Ls:
         for c in (0, 1): d.append(f"    case {L*2+c}: return KernelCfg<{L},{'true' if c else 'false'}>::jacobian(t, ncell, ns);")
     d.append('    default: return "no-cfg"; } }')
+    d.append('  if (cmd == "jacobianmix") { auto ncell = t.nat(); auto ns = t.nat(); auto csc = t.nat(); auto L = t.nat(); switch (L * 2 + csc) {')
+    for L in Ls:
+        for c in (0, 1): d.append(f"    case {L*2+c}: return KernelCfg<{L},{'true' if c else 'false'}>::jacobianmix(t, ncell, ns);")
+    d.append('    default: return "no-cfg"; } }')
     d.append('  if (cmd == "jacobianflat") { auto ncell = t.nat(); auto ns = t.nat(); auto csc = t.nat(); auto L = t.nat(); switch (L * 2 + csc) {')
     for L in Ls:
         for c in (0, 1): d.append(f"    case {L*2+c}: return KernelCfg<{L},{'true' if c else 'false'}>::jacobianflat(t, ncell, ns);")
